@@ -49,7 +49,32 @@ type Half struct {
 	Writes  []WriteRec
 	// Tap, when set, sees every write before it is queued and may rewrite it.
 	Tap func(off int64, p []byte) []byte
+	// CutAt >= 0: the stream ends after exactly CutAt bytes: later bytes are
+	// dropped and the reader sees CutErr (nil = EOF) once it has drained.
+	// CutErr == ErrStall: the bytes are dropped and nothing else happens.
+	CutAt  int64
+	CutErr error
+	cut    bool
+	cutOn  bool
 }
+
+// SetCut arms a cut of this direction after exactly n bytes (n may be 0).
+func (h *Half) SetCut(n int64, err error) {
+	h.CutAt, h.CutErr, h.cutOn = n, err, true
+	if n == 0 {
+		h.cut = true
+		switch err {
+		case nil:
+			h.WClosed = true
+		case ErrStall:
+		default:
+			h.Err = err
+		}
+	}
+}
+
+// ErrStall marks a cut after which the peer simply goes silent.
+var ErrStall = errors.New("wire: peer stalls")
 
 // Conn is one endpoint.
 type Conn struct {
@@ -243,6 +268,31 @@ func (c *Conn) put(p []byte, at time.Time) {
 	q := p
 	if c.Out.Tap != nil {
 		q = c.Out.Tap(c.Out.Total, append([]byte{}, p...))
+	}
+	if c.Out.cut {
+		// the stream was cut: the peer's later bytes never arrive
+		c.Out.Writes = append(c.Out.Writes, WriteRec{N: len(p), At: at, Off: c.Out.Total})
+		c.Out.Total += int64(len(p))
+		return
+	}
+	if c.Out.cutOn {
+		if room := c.Out.CutAt - c.Out.Total; int64(len(q)) >= room {
+			if room < 0 {
+				room = 0
+			}
+			c.Out.Buf = append(c.Out.Buf, q[:room]...)
+			c.Out.Writes = append(c.Out.Writes, WriteRec{N: len(p), At: at, Off: c.Out.Total})
+			c.Out.Total += int64(len(p))
+			c.Out.cut = true
+			switch c.Out.CutErr {
+			case nil:
+				c.Out.WClosed = true
+			case ErrStall:
+			default:
+				c.Out.Err = c.Out.CutErr
+			}
+			return
+		}
 	}
 	c.Out.Writes = append(c.Out.Writes, WriteRec{N: len(p), At: at, Off: c.Out.Total})
 	if len(c.First) < 64 {
